@@ -34,14 +34,18 @@ type Obligation struct {
 }
 
 type Unit struct {
-	Name     string
-	U        *Universe
-	Obls     []*Obligation
-	Warnings []string
-	Funcs    []string // functions whose bodies were translated (verified or inlined)
-	Trusted  []string // contracts assumed at call sites
-	symCache map[string][]string
-	mu       sync.Mutex
+	Name                  string
+	U                     *Universe
+	Obls                  []*Obligation
+	Warnings              []string
+	Funcs                 []string // functions whose bodies were translated (verified or inlined)
+	Trusted               []string // contracts assumed at call sites
+	symCache              map[string][]string
+	mu                    sync.Mutex
+	info                  []declInfo
+	defAt                 map[string]int
+	freshScalar           map[string]bool
+	stage1Hit, stage1Miss int32
 }
 
 type Exec struct {
@@ -82,7 +86,7 @@ type Event struct {
 	Loc    *Loc   // store target
 	Val    Val    // stored value / allocated reference
 	Typ    types.Type
-	Depth  int // inlining depth (0 = the verified function itself)
+	Depth  int  // inlining depth (0 = the verified function itself)
 	Res    *Val // calls with a contract: the result value
 }
 
